@@ -70,7 +70,7 @@ func overheadOf(block uint64) int { return 4 + 1 + 8 + offSize(block) + 4 }
 const maxManaged = 65536
 
 func genCase(t *rapid.T) Case {
-	c := Case{BlockSize: rapid.SampledFrom([]uint64{512, 512, 512, 4096, 4096, 4096, 65536, 65536, 131072, 524288}).Draw(t, "block")}
+	c := Case{BlockSize: rapid.SampledFrom([]uint64{512, 512, 512, 4096, 4096, 4096, 65536, 65536, 131072, 524288, 100000, 70000, 1000, 5000}).Draw(t, "block")}
 	if sz := rapid.SampledFrom([][2]int{{8, 8}, {8, 8}, {8, 8}, {4, 4}, {8, 4}, {4, 8}}).Draw(t, "sizes"); sz != [2]int{8, 8} {
 		c.Off, c.Len = sz[0], sz[1]
 	}
@@ -240,6 +240,10 @@ func run(c Case) vt.Verdict {
 		for i, o := range live {
 			got, err := fh.GetObject(o.id)
 			if err != nil {
+				if inFirst(o) {
+					v := vt.Bad("step %d (%s): GetObject(live id %x, object #%d of the first direct block, %d bytes): %v", step, op.K, o.id, i, len(o.data), err)
+					return &v
+				}
 				v := fail(step, op, "GetObject(live id %x, object #%d, %d bytes): %v", o.id, i, len(o.data), err)
 				return &v
 			}
@@ -307,12 +311,43 @@ func run(c Case) vt.Verdict {
 				return &v
 			}
 		} else {
+			var decoy *structures.WritableFractalHeap
+			var decoyAddr uint64
+			decoyData := payload(40, op.Seed+3)
+			var decoyID []byte
+			if op.Seed%5 == 4 {
+				// another file, which already holds another heap where this file's first allocations went
+				file = memf.New(128)
+				file.Data = make([]byte, 128)
+				decoy = structures.NewWritableFractalHeap(c.BlockSize)
+				if id, err := decoy.InsertObject(decoyData); err == nil {
+					decoyID = id
+					if a, err := decoy.WriteToFile(file, file, sb); err == nil {
+						decoyAddr = a
+					} else {
+						decoy = nil
+					}
+				} else {
+					decoy = nil
+				}
+			}
 			a, err := fh.WriteToFile(file, file, sb)
 			if err != nil {
 				v := fail(step, op, "WriteToFile: %v", err)
 				return &v
 			}
 			hdrAddr = a
+			if decoy != nil {
+				chk := structures.NewWritableFractalHeap(c.BlockSize)
+				if err := chk.LoadFromFile(file, decoyAddr, sb); err != nil {
+					v := vt.Bad("step %d (%s): after the heap was written into a file that already held another heap at %d, that other heap no longer loads: %v", step, op.K, decoyAddr, err)
+					return &v
+				}
+				if got, err := chk.GetObject(decoyID); err != nil || !bytes.Equal(got, decoyData) || chk.Header.NumManagedObjects != 1 {
+					v := vt.Bad("step %d (%s): after the heap was written into a file that already held another heap at %d, that other heap holds %d objects and returns %d bytes (%v) for its one object of 40 bytes", step, op.K, decoyAddr, chk.Header.NumManagedObjects, len(got), err)
+					return &v
+				}
+			}
 		}
 		// (1) the library's read-side heap returns the same bytes from the image
 		rh, err := structures.OpenFractalHeap(file, hdrAddr, uint8(lenS), uint8(offS), binary.LittleEndian)
@@ -357,7 +392,9 @@ func run(c Case) vt.Verdict {
 		if inPlace && op.Seed%2 == 1 {
 			return nil
 		}
-		nh := structures.NewWritableFractalHeap(c.BlockSize)
+		// the object the image is loaded into may have been constructed for another block size: what the file holds decides
+		ctor := []uint64{c.BlockSize, c.BlockSize, 512, 4096, 65536, 131072}[((op.Seed/2)%6+6)%6]
+		nh := structures.NewWritableFractalHeap(ctor)
 		if err := nh.LoadFromFile(file, hdrAddr, sb); err != nil {
 			v := fail(step, op, "LoadFromFile of a freshly written heap: %v", err)
 			return &v
